@@ -60,6 +60,9 @@ func genPairCase(t *rapid.T, optSets []string, tweak func(*gen.Profile)) PairCas
 		p.MaxArr = 8
 	}
 	a, b, _ := gen.Pair(t, p)
+	if gen.Chance(t, "pathTwins", 2) {
+		a, b = gen.PathTwins(t, a, b, p)
+	}
 	if gen.Chance(t, "deep", 15) {
 		a, b = gen.DeepPair(t, a, b, p)
 	}
